@@ -13,7 +13,8 @@ META = {
             "text under that passphrase, hence every input shorter than nonce+tag is an error. The model is tied to "
             "the code by a differential run of the real Encrypt/Decrypt/New/Unwrap/Validate on honest ciphertexts of "
             "all formats and on every truncation, an edit at every position, extensions, splices, prefix/magic swaps, "
-            "transport damage and wrong keys; each line carries the REAL primitives' verdicts (Go crypto, computed by "
+            "transport damage and wrong keys (passphrases of 0..1000 bytes, incl. 128-character token-like keys, "
+            "against keys differing by one bit at a chosen byte position, a suffix, a cut, letter case, a trailing NUL); each line carries the REAL primitives' verdicts (Go crypto, computed by "
             "the harness) and the model's framing must select the same one. A model-free oracle checks round trip, "
             "rejection of everything else, and that any returned text is authenticated by AES-GCM itself.",
     "note": "ASSUMED (computational, not provable as a function property): AES-GCM unforgeability / wrong-key "
@@ -98,7 +99,10 @@ def run(ctx):
         "rule": "inputs = honest ciphertexts of every format (v3 from the real Encrypt/New; v2 and legacy built with Go crypto), "
                 "every truncation, an edit at every position (sparse for the Argon2id format in the quick tier: header "
                 "truncations, region boundaries, one position per region), extensions, magic/prefix swaps, splices, "
-                "string-level base64/hex damage, wrong passphrases, junk; non-trivial = distinct (input, passphrase) that is "
+                "string-level base64/hex damage, wrong passphrases, a key sweep (passphrase lengths 0,1,15,16,17,31,32,33,63,64,65,100,"
+                "128,255,256,1000 x keys that differ from the honest one by one bit at a byte position — every position for the "
+                "MD5/SHA-256-keyed formats, boundary positions for PBKDF2, last byte / byte 64 for Argon2id in the quick tier — "
+                "or by an appended suffix, a cut, letter case, a trailing NUL), junk; non-trivial = distinct (input, passphrase) that is "
                 "NOT an honest ciphertext under that passphrase and is long enough (>= nonce+tag) that gcm.Open is consulted",
         "samples": samples,
         "counters": counters,
